@@ -56,8 +56,14 @@ def coq_build(clean=False):
         for ext in ("vo", "vos", "vok", "glob"):
             try: os.remove(os.path.join(COQ, "theories", "Extract." + ext))
             except FileNotFoundError: pass
-    rc, out = sh("timeout 3000 make -j16", cwd=COQ)
+    # -k: a broken obligation in one file must not hide what still holds elsewhere; whether a property is affected is
+    # decided per property (coq_target_ok: does props/<id>.vo, i.e. everything in its dependency cone, still build?)
+    rc, out = sh("timeout 3000 make -k -j16", cwd=COQ)
     return rc == 0, out
+
+def coq_target_ok(pid):
+    rc, out = sh("timeout 3000 make props/%s.vo" % pid, cwd=COQ)
+    return rc == 0
 
 def ocaml_build():
     src = os.path.join(ROOT, "extract", "driver.ml")
@@ -298,10 +304,11 @@ def check(pid, tier, seed):
         ok, tlog = translate()
         if not ok:
             problems.append(("tie1", tlog))
-        ok, log = coq_build(clean=(tier == "thorough" and os.environ.get("BSV_NO_CLEAN") != "1"))
+        ok_all, log = coq_build(clean=(tier == "thorough" and os.environ.get("BSV_NO_CLEAN") != "1"))
+        ok = ok_all or coq_target_ok(pid)
         if not ok:
             err = "\n".join(l for l in log.splitlines() if "Error" in l or "rror:" in l or l.startswith("File "))[-1500:]
-            problems.append(("proof", "the Coq development no longer builds: " + err))
+            problems.append(("proof", "props/%s.v or a file it depends on no longer builds: " % pid + err))
         ok2, olog = (ocaml_build() if os.path.exists(os.path.join(EXTRACT, "model.ml")) else (False, "no extracted model"))
         if not ok2:
             problems.append(("extract", olog[-800:]))
